@@ -72,7 +72,9 @@ def plan(tier, prop):
             ["routed_nets", "dead_link_one_direction", "dead_chip", "torus",
              "mesh", "narrow_torus", "disconnected_machine", "radius_zero",
              "avoid_dead_links_used", "sink_on_source_chip", "memo_prewarmed",
-             "endpoint_sink", "rerouted_after_in_place_degradation"]
+             "endpoint_sink", "rerouted_after_in_place_degradation",
+             "endpoint_in_same_chip_group", "broadcast_net",
+             "constraint_subclasses", "relay_line"]
             if c03 else
             ["packets_executed", "default_routed_hop", "endpoint_exit",
              "wrapper_new", "wrapper_deprecated", "hand_chain",
@@ -80,7 +82,10 @@ def plan(tier, prop):
              "minimisation_failed", "router_error", "placement_error",
              "ordered_covering_used", "remove_default_routes_used",
              "dead_link_one_direction", "zero_core_vertex", "same_chip_group", "earlier_mapping",
-             "multi_core_sink"] + ["placer_" + p for p in PLACERS]),
+             "multi_core_sink", "endpoint_in_same_chip_group",
+             "broadcast_net", "cube_structured_keys", "relay_line",
+             "constraint_subclasses", "numpy_net_keys"] +
+            ["placer_" + p for p in PLACERS]),
         "knob_ranges": {"machine": "1x1..12x12 (thorough ..24x24), 1xN, 2xN",
                         "nets": "0-20", "fan_out": "0-12",
                         "placer": PLACERS, "radius": "0-20",
